@@ -10,6 +10,9 @@ use super::c10::{node_digest, node_digest_for, node_model_line};
 use super::sim::*;
 use crate::common::*;
 
+#[path = "c11_backup.rs"]
+mod backup;
+
 pub struct C11Sim;
 
 impl Group for C11Sim {
@@ -251,5 +254,5 @@ impl Group for C11Stub {
 }
 
 pub fn groups() -> Vec<Box<dyn Group>> {
-    vec![Box::new(C11Sim), Box::new(C11Stub)]
+    vec![Box::new(C11Sim), Box::new(C11Stub), Box::new(backup::C11Backup)]
 }
